@@ -451,8 +451,10 @@ def decide(prop, cfg, tier, seed, work, args, t0):
         if pres.get('inconclusive'):
             raise Inconclusive("pyvc: " + pres['inconclusive'])
         for o in pres['obligations']:
+            if job.get('select') and not re.search(job['select'], o['id']):
+                continue   # this property owns only part of the tool's obligations
             obligations.append(dict(id='pyvc:' + o['id'], kind='wp', fn=o['fn'], assumed=False, unit=job.get('tool', 'pyvc'),
-                                    backend=('pyglue/typestate' if job.get('tool') == 'pyglue' else 'pyvc/z3')))
+                                    backend={'pyglue': 'pyglue/typestate', 'pyinit': 'pyinit/z3'}.get(job.get('tool'), 'pyvc/z3')))
             if not o['ok']:
                 failed.append(dict(obligation='pyvc:' + o['id'], owner=prop, fn=o['fn'], kind='wp', where=o.get('where', ''),
                                    message=o.get('message', ''), rendered=o.get('model', ''), unit='pyvc',
